@@ -2,7 +2,7 @@
    property: an operation changes at most its target.  Sharing of Python objects is outside a by-value
    model and is checked on the implementation by the audits A1-A2 and mutation probes of the harness. *)
 From Coq Require Import ZArith NArith List Bool String.
-From DM Require Import Base.PyVal Spec.Nf Spec.Table Spec.Ops Proofs.TableFacts.
+From DM Require Import Base.PyVal Spec.Nf Spec.Table Spec.Ops Proofs.TableFacts Proofs.OpFacts.
 Import ListNotations.
 Open Scope string_scope.
 
@@ -16,6 +16,12 @@ Theorem C06_deriving_leaves_pool : forall w o j,
   target o = None -> (j < List.length (pool w))%nat -> get (fst (step w o)) j = get w j.
 Proof. intros w o j H Hj. apply step_frame; [exact Hj|rewrite H; discriminate]. Qed.
 Print Assumptions C06_deriving_leaves_pool.
+
+(* names bound to one column read the same cells, whatever is written through either *)
+Theorem C06_alias_reads_same : forall t n1 n2 i,
+  lookup n1 (names t) = Some i -> lookup n2 (names t) = Some i -> slot_of t n1 = slot_of t n2.
+Proof. exact alias_reads_same. Qed.
+Print Assumptions C06_alias_reads_same.
 
 (* the deliberate alias: dm.b = dm.a binds both names to one slot, so a write through either is read through both *)
 Example C06_alias_intended :
